@@ -137,7 +137,11 @@ class Fn:
                 return "(XAddr %s)" % sub
             return "(XOp %s [%s])" % (q(op), sub)
         if k == "BinaryOperator" and n.get("opcode") != "=":
-            return "(XOp %s [%s; %s])" % (q(n.get("opcode")), self.expr(n["inner"][0]), self.expr(n["inner"][1]))
+            a, b = self.expr(n["inner"][0]), self.expr(n["inner"][1])
+            # canonical operand order of == and != (the project's own style): a constant operand comes first
+            if CANON_CMP and n.get("opcode") in ("==", "!=") and _is_const_term(b) and not _is_const_term(a):
+                a, b = b, a
+            return "(XOp %s [%s; %s])" % (q(n.get("opcode")), a, b)
         if k == "MemberExpr":
             return "(XMember %s %s)" % (self.expr(n["inner"][0]), q(n.get("name", "?")))
         if k == "ArraySubscriptExpr":
@@ -233,6 +237,21 @@ class Fn:
         if k == "IfStmt":
             inner = n.get("inner", [])
             cond = self.expr(inner[0])
+            # canonical form of `if (A) { if (B) S }` (no else on either, nothing else in the block) is `if (A && B) S`
+            cur = n
+            while True:
+                ci = cur.get("inner", [])
+                if len(ci) != 2:
+                    break
+                t = ci[1]
+                if t.get("kind") == "CompoundStmt" and len(t.get("inner", []) or []) == 1:
+                    t = t["inner"][0]
+                if t.get("kind") == "IfStmt" and len(t.get("inner", [])) == 2 and not t.get("hasVar") and not t.get("hasInit"):
+                    cond = "(XOp %s [%s; %s])" % (q("&&"), cond, self.expr(t["inner"][0]))
+                    cur = t
+                    inner = t["inner"]
+                else:
+                    break
             th = self.stmts(inner[1]) if len(inner) > 1 else "[]"
             el = self.stmts(inner[2]) if len(inner) > 2 else "[]"
             return "(SIf %s %s %s)" % (cond, th, el)
@@ -266,6 +285,17 @@ class Fn:
         return "(SOther %s)" % q(k or "?")
 
 
+CANON_CMP = False     # set for the duration of one emit_skeletons(..., canon_cmp=True) call
+
+
+def _is_const_term(t):
+    """printed skeleton expression that is a compile-time constant: integer/character literal, string literal, a cast of one (NULL)"""
+    t = t.strip()
+    while t.startswith("(XCast ") and t.endswith(")"):
+        t = t[len("(XCast "):-1].strip()
+    return t.startswith("(XInt ") or t.startswith("(XStr ")
+
+
 def skeleton(tu, name, inline_static=False):
     fns = functions(tu)
     if name not in fns:
@@ -275,9 +305,18 @@ def skeleton(tu, name, inline_static=False):
     return len(f.params), f.stmts(f.body)
 
 
-def emit_skeletons(run, genname, items, inline_static=False):
+def emit_skeletons(run, genname, items, inline_static=False, canon_cmp=False):
     """items: list of (coq_ident, relpath, function name).  Writes Gen_<genname>.v with
     Definition <ident> : fn_skel := {| sk_nparams := n; sk_body := [...] |}.  Missing function -> body [SOther "missing"]."""
+    global CANON_CMP
+    CANON_CMP = canon_cmp
+    try:
+        return _emit_skeletons(run, genname, items, inline_static)
+    finally:
+        CANON_CMP = False
+
+
+def _emit_skeletons(run, genname, items, inline_static):
     cache = {}
     out = ["(* GENERATED from the current /repo working tree by vlib/skel.py -- do not edit *)",
            "From Coq Require Import String ZArith List.", "From Snoopy Require Import Lib.Skel.", "Import ListNotations.", "Local Open Scope string_scope.", ""]
